@@ -342,6 +342,10 @@ def around(lo, hi, integer=False):
         st.floats(0, 1).map(lambda u: lo + u * span),
         st.floats(-3, 3).map(lambda e: hi + abs(hi if hi else span) * 10 ** e),
         st.floats(-3, 3).map(lambda e: lo - abs(lo if lo else span) * 10 ** e),
+        st.floats(-12, -3).map(lambda e: hi + abs(hi if hi else span) * 10 ** e),      # just outside, by 1e-12..1e-3 relative
+        st.floats(-12, -3).map(lambda e: lo - abs(lo if lo else span) * 10 ** e),
+        st.floats(-12, -3).map(lambda e: hi - abs(hi if hi else span) * 10 ** e),      # just inside
+        st.floats(-12, -3).map(lambda e: lo + abs(lo if lo else span) * 10 ** e),
     )
     if integer:
         return base.map(lambda v: int(round(v)))
